@@ -329,4 +329,76 @@ theorem obsOK_rows (cfg : Cfg) (hsz : 0 < cfg.trafficSize) (hneg : mgrType cfg (
       · simp only [hm, Bool.false_eq_true, if_false] at hb
         omega
 
+/-! ## the TRAFFIC clause holds on the model's own run -/
+
+section withcfg
+variable {cfg : Cfg} (ok : CfgOK cfg) (hfuel : cfg.fuel = 0)
+include ok hfuel
+
+omit ok hfuel in
+/-- the abstract state `Spec.checkTraffic` is applied to: `a7` after the TIMING reset -/
+theorem timingReset_fields (a0 a : A) :
+    (timingReset cfg a0 a).mods = a.mods ∧ (timingReset cfg a0 a).pubR = a.pubR ∧ (timingReset cfg a0 a).recvR = a.recvR ∧
+    (timingReset cfg a0 a).seq = a.seq ∧ (timingReset cfg a0 a).now = a.now ∧ (timingReset cfg a0 a).tTraffic = a.tTraffic ∧
+    (timingReset cfg a0 a).w = a.w ∧ (timingReset cfg a0 a).fail = a.fail := by
+  unfold timingReset; split <;> exact ⟨rfl, rfl, rfl, rfl, rfl, rfl, rfl, rfl⟩
+
+/-- **the TRAFFIC clause of one round, per observer**: on the model's own events of the round every connection that
+    received a MESSAGE_TRAFFIC sub-message in the round's last stretch received the whole report of the interval, and it
+    passes every per-observer check of `Spec.checkTraffic`; with the clause about subscribers that are *owed* a report as
+    a hypothesis (`howed`), `checkTraffic` leaves the abstract state as it is -/
+theorem traffic_round {x : State} {a : A} (h : RInv cfg x a) (hna : MgrNotAll cfg) (hord : OrderGood cfg)
+    (hsz : 0 < cfg.trafficSize) (hneg : mgrType cfg (-1) = false) (r : Round)
+    (hr : RoundOK r) (hnw : NoWrap cfg (stepR cfg x r).hist)
+    (a9 : A) (ha9 : a9 = timingReset cfg (roundPre cfg a r (stepR cfg x r).out) (roundPre cfg a r (stepR cfg x r).out))
+    (howed : (a9.pubR.filter (·.1 != -1)).isEmpty = false →
+      ∀ m ∈ owedOf cfg a9 (lastEvs (stepR cfg x r).out),
+        (((trOf (lastEvs (stepR cfg x r).out)).map (·.1)).eraseDups).contains m.uid = true) :
+    checkTraffic cfg a9 (lastEvs (stepR cfg x r).out) = a9 := by
+  obtain ⟨x2, T, a', rT, rR, lastIO, hP, hS2, _, hrR⟩ := round_pre ok hfuel h hna hord r hr
+  generalize ha7 : roundPre cfg a r (stepR cfg x r).out = a7 at hP ha9
+  have hpre := hP.pre
+  rw [ha7] at hpre
+  obtain ⟨_, g2, g3, g4, _, _, _, _⟩ := timingReset_fields (cfg := cfg) a7 a7
+  rw [← ha9] at g2 g3 g4
+  have fpub : a9.pubR = a'.pubR := by rw [g2]; have := congrArg A.pubR hpre; exact this
+  have frecv : a9.recvR = rR := by rw [g3]; have := congrArg A.recvR hpre; exact this
+  have fseq : a9.seq = x2.trafficSeq := by rw [g4]; have := congrArg A.seq hpre; exact this.trans hS2.seq
+  apply checkTraffic_fix cfg a9 _ howed
+  intro o ho
+  rw [hP.last] at ho ⊢
+  -- the MESSAGE_TRAFFIC frames of the last stretch are those of the periodic section
+  obtain ⟨pfx, hpfx⟩ := hP.io
+  have hq0 : dataSends isTrafficB pfx = [] ∧ dataSends isTrafficB lastIO = [] := by
+    have := hP.quietR
+    rw [hpfx, dataSends_append] at this
+    exact List.append_eq_nil_iff.mp this
+  have hD : dataSends isTrafficB (lastIO ++ T) = dataSends isTrafficB (ticks cfg x2).out := by
+    rw [hP.ev.out, hpfx, List.append_assoc, dataSends_append _ pfx, hq0.1]; rfl
+  obtain ⟨sL, _, _, _, hrows⟩ := ticks_traffic ok hfuel hna hord hP.inv2.top hP.inv2.stat.idle (ackFrame cfg 0) rfl
+  have hmine := mine_eq (lastIO ++ T) o
+  rw [hD, hrows o, hP.quietR] at hmine
+  simp only [List.filter_nil, List.nil_append] at hmine
+  -- `o` is an observer: it received something
+  have hmem : o ∈ (trOf (lastIO ++ T)).map (·.1) := mem_of_mem_eraseDups _ _ (Nat.le_refl _) o ho
+  obtain ⟨row, hrow, hro⟩ := List.mem_map.mp hmem
+  have hne : (trOf (lastIO ++ T)).filter (·.1 == o) ≠ [] := by
+    intro he
+    have : row ∈ (trOf (lastIO ++ T)).filter (·.1 == o) := List.mem_filter.mpr ⟨hrow, by simp [hro]⟩
+    rw [he] at this; cases this
+  by_cases hc : x2.now - x2.tTraffic > 1000 ∧ recvB cfg sL cfg.mtTraffic (ackFrame cfg 0) o = true
+  · rw [if_pos hc, List.map_map] at hmine
+    rw [hmine]
+    have hcounts : x2.traffic = tallyOn [] (sinceTick .trafficTick x2.hist) := hP.inv2.stat.traffic
+    have hgrow : ∃ e, (stepR cfg x r).hist = e ++ x2.hist := by rw [hP.step]; exact ticks_grows cfg x2
+    obtain ⟨eg, heg⟩ := hgrow
+    have := obsOK_rows cfg hsz hneg a9 (sinceTick .trafficTick x2.hist) o (by rw [fpub]; exact hS2.pubR)
+      (by rw [frecv]; exact hrR) (fun t => hmgr_lt_of_noWrap hnw heg _ t)
+    rw [fseq, ← hcounts] at this
+    exact this
+  · rw [if_neg hc] at hmine
+    exact absurd hmine hne
+
+end withcfg
+
 end Pyrtma.Mgr
